@@ -583,13 +583,24 @@ def handle_sat(prop, g, ob, ck, locked, known, violations, known_hits, undecided
             json.dumps(confirmed['observed'])[:120]), 'replay': rp, 'input': confirmed['args_json']})
         return
     # not confirmed on the real code
-    if ob.get('definite') and any(x.startswith(qual + '#') for x in locked):
+    # hazards that are tied to ONE statement and do not depend on facts only contracts supply (an exception
+    # class that escapes, a write outside the frame, a shared container, mutation of the container being
+    # iterated, arity of a format / unpacking / call); index and None-dereference obligations are NOT in
+    # this list: they fail for want of a contract as easily as for a defect
+    structural = (ob['kind'] in ('exc-escape', 'frame', 'ownership') or
+                  (ob['kind'] in ('safety', 'type') and any(t in ob['label'] for t in (
+                      'iterated-unchanged', 'percent-format', 'unpack-arity', 'no-method', 'arity', 'kwarg', 'missing-arg'))))
+    new_hazard = (structural and ck not in locked
+                  and 'modulo quantifier instantiation' not in (ob['result'].get('variant') or ''))
+    if (ob.get('definite') or new_hazard) and any(x.startswith(qual + '#') for x in locked):
         # a statement that cannot succeed (wrong number of format arguments, unpacking arity, a call
         # that does not fit the callee, ...) on a path the solver finds reachable, in a function
         # whose obligations were all discharged on the pinned tree
         rp = write_replay(prop, ob['id'], payload)
-        violations.append({'what': '%s: %s - reachable according to %s (no such statement on the pinned tree)'
-                           % (ob['id'], ob['claim'], ob['result'].get('backend')), 'replay': rp, 'input': None})
+        violations.append({'what': '%s: "%s" refuted by %s - a hazard (internal error / write outside the frame / shared '
+                                   'container) that no statement of this function had on the pinned tree, where all its '
+                                   'obligations were discharged' % (ob['id'], ob['claim'], ob['result'].get('backend')),
+                           'replay': rp, 'input': None})
         return
     if native is None and ck in locked:
         # no executable form, and this clause was discharged on the pinned tree
